@@ -33,6 +33,7 @@ pub const CHECKS: &[CheckDef] = &[
     CheckDef { id: "C16", quick_runs: 1500, thorough_runs: 20_000, level: "exploration", title: "iterations and models are isolated" },
     CheckDef { id: "C17", quick_runs: 5000, thorough_runs: 150_000, level: "exploration", title: "thread_local! / lazy_static! semantics" },
     CheckDef { id: "C18", quick_runs: 3000, thorough_runs: 100_000, level: "exploration", title: "yielding spin loops progress and lose no exit outcome" },
+    CheckDef { id: "C20", quick_runs: 1500, thorough_runs: 60_000, level: "exploration", title: "block_on / AtomicWaker never lose a wake-up" },
     CheckDef { id: "C19", quick_runs: 1000, thorough_runs: 40_000, level: "exploration", title: "exploration controls and limits" },
     CheckDef { id: "C15", quick_runs: 1500, thorough_runs: 60_000, level: "exploration", title: "preemption bound is sound and monotone" },
 ];
@@ -167,6 +168,7 @@ pub fn generate(check: &str, tier: &str, seed: u64, run: u64) -> Case {
             }
         }
         "C17" => gen_tls_lazy(&mut rng),
+        "C20" => gen_future(&mut rng),
         "C18" => {
             let never = rng.chance(1, 6);
             if never {
@@ -306,6 +308,12 @@ pub fn judge(check: &str, tier: &str, case: &Case, seed: u64, run: u64) -> CaseR
             if !yields {
                 opts.o1 = Some(MachineCfg::must());
             }
+        }
+        "C20" => {
+            opts.o1 = Some(MachineCfg::must());
+            opts.o2 = true;
+            opts.o3_must_classes = vec![FailClass::Deadlock];
+            opts.o3_may_classes = vec![FailClass::Deadlock];
         }
         "C18" => {
             let never = case.program.threads.iter().flatten().any(|o| matches!(o, Op::Await { v, .. } | Op::AwaitY { v, .. } if *v == crate::gen::NEVER));
